@@ -8,7 +8,7 @@ for line in open(sys.argv[1]):
     if not m or m.group(5) != "CONFIRMED":
         continue
     name = m.group(1)
-    src = "/tmp/mut/out/" + name
+    src = os.environ.get("SEED_SRC", "/tmp/mut/out") + "/" + name
     dst = os.path.join(V, "seeded", name)
     os.makedirs(dst, exist_ok=True)
     for f in ("patch.diff", "demo.rs"):
